@@ -278,7 +278,8 @@ def coq_eval(pid, imports, case_type, check_fn, terms, shard=400, tag='cases'):
     try:
         runs = sorted(glob.glob(os.path.join(WORK, pid, 'run_*')), key=os.path.getmtime)
         for old in runs[:-3]:
-            if old != wd:
+            # only directories no concurrent run can still be using
+            if old != wd and time.time() - os.path.getmtime(old) > 3 * 3600:
                 shutil.rmtree(old, ignore_errors=True)
     except Exception:
         pass
